@@ -103,8 +103,10 @@ let () =
         end else begin
           let t = parse_table src in
           write_bytes dst (to_bytes t);
-          (* the hypotheses of C06_roundtrip_L1 / C06_roundtrip_partial, evaluated on this very table *)
-          Printf.printf "%s wf_table=%d wf_doc=%d ok\n%!" id (if wf_table t then 1 else 0) (if wf_doc (to_doc t) then 1 else 0)
+          (* the hypothesis of C06_roundtrip (wf_table'), of C06_roundtrip_L1 (wf_table) and the conclusion of C06_wf_doc,
+             evaluated on this very table *)
+          Printf.printf "%s wf_table=%d wf_table'=%d wf_doc=%d ok\n%!" id (if wf_table t then 1 else 0)
+            (if wf_table' t then 1 else 0) (if wf_doc (to_doc t) then 1 else 0)
         end
       with ex -> Printf.printf "%s EXC %s\n%!" id (Printexc.to_string ex))
     | _ -> ()
